@@ -39,7 +39,7 @@ func (c *ConfirmCache) Push(data *BlockConfirmData) {
 	c.cache[data.Height][data.Hash] = append(c.cache[data.Height][data.Hash], data)
 
 	if len(c.cache) > 10240 {
-		c.Clear(^uint32(0))
+		c.cache = make(map[uint32]blockConfirms) // the lock is held: do not call Clear
 	}
 }
 
@@ -134,7 +134,7 @@ func (c *BlockCache) Add(block *types.Block) {
 	}
 
 	if len(c.cache) > 10240 {
-		c.Clear(^uint32(0))
+		c.cache = c.cache[:0] // the lock is held: do not call Clear
 	}
 }
 
